@@ -332,6 +332,7 @@ pub fn exec_seq_full(case: &Case) -> (Verdict, Vec<crate::seq::CommitRec>) {
             skipped: out.skipped,
             // every API outcome and every SimOS event including the bytes written
             trace: crate::rng::mix(out.trace, simos::log_hash()),
+            api_trace: out.trace,
             issued: out.issued,
             stats: out.stats,
             sim_events: simos::total_calls(),
